@@ -19,7 +19,7 @@ def run(ctx):
     ctx.decided += [
         'C09.a buffer-commit discipline of _BufferedDensityMatrix and _BufferedStateVector (incl. create() copying an aliased input)',
         'C09.b trajectory sampling: buffer divided by sqrt(weight) before commit; mixture index drawn with the mixture\'s own probabilities and returned',
-        'C09.c with_noise and the simulators generate noise for sorted(circuit.all_qubits()) of the same circuit',
+        'C09.c with_noise and the simulators generate noise for sorted(all_qubits()) of the whole program - also when the simulator iterates over a prefix / suffix of it',
         'C09.e copy isolation of simulator states (shared with C02.b)',
     ]
     ctx.not_decided += ['Kraus completeness / trace preservation', 'channel representation conversions (Kraus, mixture, superoperator, Choi)', 'left/right axis arithmetic', 'probability tolerances of channel constructors']
